@@ -219,3 +219,32 @@ func (p *c03BufProbe) ReadMsgUDP(b, oob []byte) (int, int, int, *net.UDPAddr, er
 	}
 	return 0, 0, 0, nil, errors.New("stop")
 }
+
+// The 2-byte length-prefixed vectors that carry the leaf and intermediate
+// certificates inside the handshake: what writeVector frames, readVector
+// returns, for every length the prefix can announce.
+//
+//verif:prop C18
+//verif:bounds two consecutive vectors (leaf, intermediate) of length picked from {0,1,255,256,257,660,4096} with symbolic bytes, written by writeVector and split by readVector exactly as EncryptCertificates / DecryptCertificates do
+//verif:cover roundtrip
+func VH_C18_certificate_vectors_roundtrip() {
+	leaf := verifBytes("leaf", verifPick("leaf-len", 0, 1, 255, 256, 257, 660, 4096))
+	inter := verifBytes("intermediate", verifPick("intermediate-len", 0, 1, 255, 256, 660))
+	b := make([]byte, len(leaf)+len(inter)+4)
+	n, err := writeVector(b, leaf)
+	verifAssert(err == nil && n == 2+len(leaf), "C18: writeVector frames the leaf")
+	_, err = writeVector(b[n:], inter)
+	verifAssert(err == nil, "C18: writeVector frames the intermediate")
+	l1, got1, err := readVector(b)
+	verifAssert(err == nil && l1 == len(leaf), "C18: readVector recovers the leaf's length")
+	if err != nil || l1 != len(leaf) {
+		return
+	}
+	verifAssertBytesEq(got1, leaf, "C18: certificate vector round-trip: leaf")
+	l2, got2, err := readVector(b[2+l1:])
+	verifAssert(err == nil && l2 == len(inter), "C18: readVector recovers the intermediate's length")
+	if err == nil && l2 == len(inter) {
+		verifAssertBytesEq(got2, inter, "C18: certificate vector round-trip: intermediate")
+	}
+	verifCover("roundtrip")
+}
